@@ -149,7 +149,11 @@ class Lib:
             m = self.prog.modules.get(ap[:-1])
             if m is not None and ap[-1] in m.consts:
                 c = m.consts[ap[-1]]
-                return self._eval_in_module(c['expr'], m.path)
+                v = self._eval_in_module(c['expr'], m.path)
+                if c.get('k') == 'Lazy' and isinstance(v, Opaque) and v.tag == 'SyncObj':
+                    # a static: one object for the whole process, shared by every target
+                    return Opaque('SyncObj', kind=v.get('kind'), shared='::'.join(ap), oid=0, inner=v.get('inner'))
+                return v
         fd = self.prog.lookup_fn(I.frame.module, segs, I.frame.self_ty)
         if fd is not None:
             return FnRef(fd=fd)
@@ -728,6 +732,10 @@ class Lib:
             return RSet(ordered=True)
         if last2 in ('Vec::new', 'Vec::with_capacity'):
             return RVec()
+        if last2 in ('Mutex::new', 'RwLock::new', 'Semaphore::new', 'Barrier::new', 'Condvar::new'):
+            # synchronisation objects: identity matters only for objects shared between targets (statics), see path_value
+            I.fresh_counter['syncobj'] = I.fresh_counter.get('syncobj', 0) + 1
+            return Opaque('SyncObj', kind=segs[-2], shared=None, oid=I.fresh_counter['syncobj'], inner=(I.deref(args[0]) if args else UNIT))
         if last2 in ('String::new',):
             return ''
         if last2 in ('String::from', 'PathBuf::from', 'Path::new', 'OsString::from', 'OsStr::new', 'String::as_str', 'ToString::to_string',
@@ -1603,6 +1611,20 @@ class Lib:
                 return W.chan_query(I, v.get('chan'), method, node)
             if method == 'close':
                 return W.chan_close(I, v.get('chan'), node)
+        if tag == 'SyncObj':
+            if method in ('lock', 'read', 'write', 'acquire', 'acquire_arc', 'lock_arc', 'try_lock', 'try_read', 'try_write', 'wait'):
+                # single-task exploration: the acquisition succeeds; what matters is what happens while it is held
+                I.guard_seq += 1
+                gid = I.guard_seq
+                I.held[gid] = v.get('shared')
+                I.effect('lock', name=v.get('shared'), obj=v.get('kind'), how=method, gid=gid)
+                g = Opaque('Guard', gid=gid, name=v.get('shared'), inner=v.get('inner'))
+                return some(g) if method.startswith('try_') else g
+            if method in ('clone',):
+                return v
+        if tag == 'Guard':
+            if method in ('unwrap', 'expect'):
+                return v
         if tag == 'Fuse':
             if method == 'set':
                 I.store_at(ref, I.deref(args[0]) if not isinstance(I.deref(args[0]), Opaque) or I.deref(args[0]).tag != 'Future' else Opaque('Fuse', inner=I.deref(args[0])))
